@@ -201,7 +201,59 @@ def depth_scenario():
                              recursion_limit=sys.getrecursionlimit())]
 
 
+class _Res:
+  """An ordinary class instance (weak-referenceable, mutable) built from a shared Config."""
+  made = []
+
+  def __init__(self, name):
+    self.name = name
+    _Res.made.append(name)
+
+
+def _measure(res):
+  return 7                 # uses its argument and drops it
+
+
+def _combine(*parts, **named):
+  return (parts, named)
+
+
+def dropped_results_scenario():
+  """A shared Buildable whose built object is *not kept* by its first consumer: the later
+  references must still receive that one object, and the callable must have run once."""
+  viols = []
+  n = 0
+  for first_consumer_position in (0, 1, 2):
+    n += 1
+    shared = fdl.Config(_Res, 'shared')
+    other = fdl.Config(_Res, 'other')
+    consumers = [shared, [shared, {'k': shared}], fdl.Partial(_combine, shared)]
+    consumers.insert(first_consumer_position, fdl.Config(_measure, shared))
+    cfg = fdl.Config(_combine, *consumers, tail=fdl.Config(_measure, other), also=other)
+    _Res.made.clear()
+    import gc
+    built = fdl.build(cfg)
+    gc.collect()
+    if sorted(_Res.made) != ['other', 'shared']:
+      viols.append(dict(what=f'a Buildable whose built object was dropped by its first consumer was '
+                             f'invoked again: invocations {_Res.made} (expected one per Buildable)',
+                        shape=[], same=False, sig='dropped', store=str(first_consumer_position), op='build'))
+      continue
+    parts = [p for p in built[0] if not isinstance(p, int)]
+    objs = [parts[0], parts[1][0], parts[1][1]['k'], parts[2].args[0]]
+    if any(o is not objs[0] for o in objs):
+      viols.append(dict(what='references to one shared Buildable received different built objects',
+                        shape=[], same=False, sig='dropped', store=str(first_consumer_position), op='build'))
+    if built[1]['also'].name != 'other':
+      viols.append(dict(what='wrong object for the second shared Buildable', shape=[], same=False,
+                        sig='dropped', store=str(first_consumer_position), op='build'))
+  return n, n, viols, [dict(scenario='built object dropped by its first consumer')]
+
+
 def replay(case):
+  if case.get('sig') == 'dropped':
+    r = dropped_results_scenario()
+    return r[2][0]['what'] if r[2] else None
   if case.get('sig') == 'rows':
     r = temporaries_scenario()
     return r[2][0]['what'] if r[2] else None
@@ -222,11 +274,13 @@ def run(tier='quick', seed=0, nproc=16):
   res = common.pmap(check_shape, gen.shuffled(jobs), nproc)
   res.append(temporaries_scenario())
   res.append(depth_scenario())
+  res.append(dropped_results_scenario())
   return common.merge(
       res, 'layerb.prop_C02',
       rule='every DAG shape over Config/list/tuple/dict nodes with <=2 slots per node (all shapes '
            f'<= {n} nodes; 4-node Config/list shapes sampled in quick), distinct and equal-but-distinct '
            'nodes; invocation log + canonical form of the built graph vs an independent evaluation '
-           'of the shape; two builds; gc stress; temporaries of a registered node type; chains; '
+           'of the shape; two builds; gc stress; temporaries of a registered node type; chains; built '
+           'objects dropped by their first consumer; '
            'non-trivial = shape with at least one Buildable',
       exhaustive=(tier != 'quick'), bound=f'DAGs <= {n} nodes (+ sample of 4-node shapes)')
